@@ -2,6 +2,7 @@ package main
 
 import (
 	"fmt"
+	"io"
 	"net"
 	"strings"
 	"sync"
@@ -363,6 +364,108 @@ func init() {
 			}
 			c.took = time.Since(t0)
 			a.Close()
+		}
+		// Disconnect() returns at once, whatever state the connection is in: after a call that was refused before anything
+		// was sent (credentials too long for a frame — no deadline was ever armed) and on a fresh connection; the peer stays silent and keeps the connection open
+		for _, kind := range []string{"refused-before-sending", "fresh"} {
+			took, res := func() (time.Duration, string) {
+				pw := "p"
+				if kind == "refused-before-sending" {
+					pw = strings.Repeat("p", 70000)
+				}
+				cl, err := rscp.NewClient(rscp.ClientConfig{Address: "a", Username: "u", Password: pw, Key: "k", ConnectionTimeout: 300 * time.Millisecond, SendTimeout: 150 * time.Millisecond, ReceiveTimeout: 150 * time.Millisecond})
+				if err != nil {
+					return 0, "newclient-error"
+				}
+				a, b, err := tcpPair()
+				if err != nil {
+					return 0, "no-loopback"
+				}
+				defer b.Close()
+				go io.Copy(io.Discard, b) // the peer reads and never answers, never closes
+				cl.VerifAttachConn(a)
+				if kind != "fresh" {
+					_, _ = cl.Send(rscp.Message{Tag: rscp.INFO_REQ_SERIAL_NUMBER, DataType: rscp.None})
+				}
+				done := make(chan struct{})
+				t0 := time.Now()
+				go func() { defer func() { recover() }(); cl.Disconnect(); close(done) }()
+				select {
+				case <-done:
+					return time.Since(t0), "returned"
+				case <-time.After(2500 * time.Millisecond):
+					a.Close()
+					return time.Since(t0), "blocked"
+				}
+			}()
+			prop := "pass"
+			if res == "blocked" || took > time.Second {
+				prop = fmt.Sprintf("FAIL C10 Disconnect() (%s, silent peer) took %v (%s)", kind, took.Round(time.Millisecond), res)
+			}
+			cw.add("skip", "skip", fmt.Sprintf("N stall disconnect %s took=%dms", kind, took.Milliseconds()), prop)
+		}
+		// a deaf peer: it has written its replies in advance and never reads. Small requests fill the socket buffers; the
+		// call whose write cannot proceed ends by the send time-out like any other
+		{
+			worst, res, calls := time.Duration(0), "ok", 0
+			func() {
+				key := "deafkey"
+				cl, err := rscp.NewClient(rscp.ClientConfig{Address: "a", Username: "u", Password: "p", Key: key, ConnectionTimeout: 300 * time.Millisecond, SendTimeout: 200 * time.Millisecond, ReceiveTimeout: 200 * time.Millisecond})
+				if err != nil {
+					res = "newclient-error"
+					return
+				}
+				a, b, err := tcpPair()
+				if err != nil {
+					res = "no-loopback"
+					return
+				}
+				defer a.Close()
+				defer b.Close()
+				if ta, ok := a.(*net.TCPConn); ok {
+					ta.SetWriteBuffer(2048)
+				}
+				if tb, ok := b.(*net.TCPConn); ok {
+					tb.SetReadBuffer(2048)
+				}
+				pc := newPeerCipher(key)
+				encf := func(pl []byte) []byte { o := make([]byte, len(pl)); pc.enc.CryptBlocks(o, pl); return o }
+				go func() {
+					b.Write(encf(frameBytes(itemBytes(uint32(rscp.RSCP_AUTHENTICATION), 3, []byte{10}), true, 1, 2)))
+					for i := 0; i < 6000; i++ {
+						if _, err := b.Write(encf(frameBytes(itemBytes(uint32(rscp.INFO_SERIAL_NUMBER), 13, []byte("x")), true, 1, 2))); err != nil {
+							return
+						}
+					}
+				}()
+				cl.VerifAttachConn(a)
+				req := rscp.Message{Tag: rscp.WB_REQ_DATA, DataType: rscp.Container, Value: []rscp.Message{{Tag: rscp.WB_EXTERN_DATA, DataType: rscp.ByteArray, Value: make([]byte, 2000)}}}
+				for calls = 0; calls < 6000; calls++ {
+					t0 := time.Now()
+					done := make(chan error, 1)
+					go func() { _, err := cl.Send(req); done <- err }()
+					select {
+					case err := <-done:
+						if d := time.Since(t0); d > worst {
+							worst = d
+						}
+						if err != nil {
+							res = "err"
+							return
+						}
+					case <-time.After(3 * time.Second):
+						worst, res = 3*time.Second, "blocked"
+						return
+					}
+				}
+			}()
+			prop := "pass"
+			if res == "blocked" || worst > 1500*time.Millisecond {
+				prop = fmt.Sprintf("FAIL C10 a call against a peer that does not read any more took %v (%s) after %d calls; send and receive time-outs are 200 ms", worst.Round(time.Millisecond), res, calls)
+			} else if res == "ok" {
+				prop = "pass" // the buffers never filled: nothing observed
+			}
+			cw.add("skip", "skip", fmt.Sprintf("N stall deaf-peer calls=%d worst=%dms res=%s", calls, worst.Milliseconds(), res), prop)
 		}
 		var wg sync.WaitGroup
 		sem := make(chan struct{}, 16)
